@@ -284,6 +284,188 @@ def worker_alpha(cfg, tier):
     return obs
 
 
+def worker_end_to_end(cfg, tier):
+    """generate_graphs (trainable connection -> minimal delay) -> apply_window (extended) -> apply_delay(alpha)   versus
+    generate_graphs (static delay d) -> apply_window:   every receiver step must see the same window."""
+    import jax
+    import jax.numpy as jnp
+    from rex import utils
+    from rex.base import TrainableDist
+    from props.c12 import capture_episode
+    from vlib import cg, jx, smt
+
+    W, ra, rb, dmin, dmax, D0 = cfg["W"], cfg["rate_a"], cfg["rate_b"], cfg["min"], cfg["max"], cfg["created_delay"]
+    gcfg = dict(rates=(ra, rb), skip=False, ts_max=cfg["ts_max"], phase_b=cfg["phase_b"])
+    ddT = TrainableDist.create(D0, dmin, dmax)
+    nodes_T, ep_T, g0 = capture_episode(gcfg, conn_dist=ddT, window=W)
+    nodes_S, ep_S, _ = capture_episode(gcfg, window=W)
+    calls = cg.UFCalls()
+    it = jx.Interp(callback_handler=calls.handler, while_bound=8)
+    alg = it.alg
+    tsm = jnp.float32(cfg["ts_max"])
+    rng0 = jax.random.PRNGKey(0)
+    trT, trS = jx.Traced(ep_T, rng0, g0, tsm), jx.Traced(ep_S, rng0, g0, tsm)
+    flat = list(trT.sym_inputs(it, "e"))
+    flat[-1] = it.from_concrete(np.asarray(tsm), np.float32)
+    GT, GS = trT.run(it, flat), trS.run(it, flat)
+    unwind = list(it.unwind_obligations)
+    alpha = z3.Real("alpha")
+    lo = Fraction(float(np.float32(dmin)))
+    span = Fraction(float(np.float32(float(dmax) - float(dmin))))
+    d = lo + alpha * span
+    pre = [alpha >= 0, alpha <= 1]
+    # the static system's communication delay is d for every message
+    for c in calls.by_tag("oracle_sample_comm_ab"):
+        pre += [alg.z(x, "f") == d for x in c["outs"][0].flat()]
+    ext = ddT.window(ra)
+    va = GT.vertices["a"]
+    na = va.seq.shape[0]
+    # sender regularity: at most `ext` sends within any window of length max-min
+    for j in range(na - ext):
+        pre.append(va.ts_end.v[j + ext] - va.ts_end.v[j] >= span)
+    # windows on both sides through the real apply_window
+    def windows(nodes, G):
+        leaves = jax.tree_util.tree_leaves(G, is_leaf=lambda x: isinstance(x, jx.SA))
+        ex = jax.tree_util.tree_map(lambda sa: np.zeros(sa.shape, np.dtype(sa.dtype)), G, is_leaf=lambda x: isinstance(x, jx.SA))
+        tr = jx.Traced(lambda gr: utils.apply_window(nodes, gr), ex)
+        return tr.run(it, leaves).vertices["b"]
+    wT, wS = windows(nodes_T, GT), windows(nodes_S, GS)
+    nb = wT.seq.shape[0]
+    n = W + ext
+    # apply_delay of the real TrainableDist on every receiver step's extended window
+    from rex.base import InputState
+    from vlib.fixtures import POutput
+    ins0 = InputState.from_outputs(np.zeros(n, np.int32), np.zeros(n, np.float32), np.zeros(n, np.float32), POutput(y=np.zeros((n,), np.float32)),
+                                   delay_dist=TrainableDist(alpha=jnp.float32(0.5), min=float(dmin), max=float(dmax), interp="zoh"), is_data=True)
+    trd = jx.Traced(lambda i, t: i.delay_dist.apply_delay(ra, i, t), ins0, np.float32(0.0))
+    conj = []
+    for k in range(nb):
+        win = wT.windows["a"]
+        f_in = [jx.SA(win.seq.v[k], np.int32), jx.SA(win.ts_sent.v[k], np.float32), jx.SA(win.ts_recv.v[k], np.float32),
+                jx.SA(np.array([z3.RealVal(0)] * n, dtype=object), np.float32), jx.SA(np.array(alpha, dtype=object).reshape(()), np.float32),
+                jx.SA(np.array(wT.ts_start.v[k], dtype=object).reshape(()), np.float32)]
+        o = trd.run(it, f_in)
+        ws = wS.windows["a"]
+        step_ok = []
+        for j in range(W):
+            s_seq, t_seq = alg.z(ws.seq.v[k, j], "i"), alg.z(o.seq.v[j], "i")
+            step_ok.append(z3.If(s_seq < 0, t_seq < 0, z3.And(t_seq == s_seq, alg.z(o.ts_sent.v[j], "f") == alg.z(ws.ts_sent.v[k, j], "f"),
+                                                               alg.z(o.ts_recv.v[j], "f") == alg.z(ws.ts_recv.v[k, j], "f"))))
+        conj.append(z3.Implies(wT.seq.v[k] >= 0, z3.And(*step_ok)))
+    same_vertices = jx.tree_equal(alg, GT.vertices, GS.vertices)
+    obs = []
+    tmo = 180 if tier == "quick" else 900
+    v, m, s = smt.check(pre, z3.And(*unwind) if unwind else z3.BoolVal(True), tmo)
+    obs.append(Ob("end-to-end: unwinding assertion of the graph generator's search loop", v, s, cfg, kind="unwind"))
+    obs.append(Ob("end-to-end: both systems have identical vertices (same step times)", "unsat" if same_vertices is True else smt.check(pre, same_vertices if not isinstance(same_vertices, bool) else z3.BoolVal(same_vertices), tmo)[0], 0, cfg,
+                  trivial=same_vertices is True))
+    v, m, s = smt.check(pre, z3.And(*conj), tmo)
+    o = Ob("end-to-end: generated(min delay) + extended apply_window + apply_delay(d)  ==  generated(static d) + apply_window, for every receiver step", v, s, cfg,
+           key="trainable-vs-static-graph", what="a compiled system with a trainable delay set to d sees different input windows than the same system generated with a static delay d")
+    if v == "sat":
+        o.replayed = _replay_end_to_end(cfg, float(jx.model_value(m, alpha)))
+        o.model = dict(alpha=float(jx.model_value(m, alpha)))
+    obs.append(o)
+    v, m, s = smt.satisfiable(pre + [alg.z(wS.windows["a"].seq.v[nb - 2, W - 1], "i") >= 0, alpha > 0, alpha < 1], 60)
+    obs.append(Ob("end-to-end: twin.regular sender, interior delay, consumed message", v, s, cfg, kind="vacuity"))
+    return obs
+
+
+def worker_generated_min(cfg, tier):
+    """graphs generated (and augmented) for a trainable connection record the MINIMAL delay, whatever delay the connection was created with"""
+    import jax
+    import jax.numpy as jnp
+    from rex.base import TrainableDist
+    from props.c12 import capture_episode
+    from vlib import cg, jx, smt
+
+    dmin, dmax, D0 = cfg["min"], cfg["max"], cfg["created_delay"]
+    gcfg = dict(rates=(cfg["rate_a"], cfg["rate_b"]), skip=cfg.get("skip", False), ts_max=cfg["ts_max"], phase_b=cfg["phase_b"])
+    obs = []
+    for augment in (False, True):
+        nodes, ep, g0 = capture_episode(gcfg, augment=augment, conn_dist=TrainableDist.create(D0, dmin, dmax), window=cfg["W"])
+        calls = cg.UFCalls()
+        it = jx.Interp(callback_handler=calls.handler, while_bound=8)
+        tr = jx.Traced(ep, jax.random.PRNGKey(0), g0, jnp.float32(cfg["ts_max"]))
+        flat = list(tr.sym_inputs(it, "e"))
+        flat[-1] = it.from_concrete(np.asarray(jnp.float32(cfg["ts_max"])), np.float32)
+        G = tr.run(it, flat)
+        va, e = G.vertices["a"], G.edges[("a", "b")]
+        lo = Fraction(float(np.float32(dmin)))
+        goal = z3.And(*[z3.Implies(va.seq.v[j] >= 0, e.ts_recv.v[j] == va.ts_end.v[j] + lo) for j in range(va.seq.shape[0])])
+        pre = []
+        if augment:
+            pre = [va.ts_end.v[j] <= 10 for j in range(va.seq.shape[0])]
+        v, m, s = smt.check(pre, goal, 120)
+        o = Ob(f"{'augmented' if augment else 'generated'} graph of a trainable connection records arrival = sender end + min (not the configured delay)", v, s, cfg,
+               key="generated-graph-not-minimal-delay", what="graphs generated for a trainable connection are not recorded with the minimal delay, so the extended window misses messages when the delay is later lowered")
+        if v == "sat":
+            o.replayed = _replay_generated_min(cfg)
+        obs.append(o)
+    return obs
+
+
+def _replay_generated_min(cfg):
+    import distrax
+    import jax
+    from rex.artificial import generate_graphs
+    from rex.base import TrainableDist
+    from vlib.fixtures import ProbeNode
+
+    try:
+        a = ProbeNode(name="a", rate=cfg["rate_a"], delay_dist=distrax.Deterministic(0.01))
+        b = ProbeNode(name="b", rate=cfg["rate_b"], delay_dist=distrax.Deterministic(0.01))
+        b.connect(a, window=cfg["W"], delay=cfg["phase_b"], delay_dist=TrainableDist.create(cfg["created_delay"], cfg["min"], cfg["max"]))
+        g = generate_graphs({"a": a, "b": b}, 0.5, rng=jax.random.PRNGKey(0))
+        te, tr_, so = np.asarray(g.vertices["a"].ts_end[0]), np.asarray(g.edges[("a", "b")].ts_recv[0]), np.asarray(g.edges[("a", "b")].seq_out[0])
+        return bool(any(so[j] >= 0 and abs(tr_[j] - (te[j] + cfg["min"])) > 1e-6 for j in range(len(so))))
+    except BaseException:  # noqa
+        return None
+
+
+def _replay_end_to_end(cfg, alpha):
+    """public API: compiled rollout with a trainable connection set to d through init_delays vs the static-d system"""
+    import distrax
+    import jax
+    import jax.numpy as jnp
+    from rex.artificial import generate_graphs
+    from rex.base import TrainableDist
+    from rex.graph import Graph
+    from vlib.fixtures import ProbeNode
+
+    try:
+        W, ra, rb, dmin, dmax, D0 = cfg["W"], cfg["rate_a"], cfg["rate_b"], cfg["min"], cfg["max"], cfg["created_delay"]
+        bad = False
+        for a_ in sorted({alpha, 0.0, 0.3, 1.0}):
+            d = float(dmin) + a_ * (float(dmax) - float(dmin))
+
+            def build(trainable):
+                class Rcv(ProbeNode):
+                    def init_delays(self, rng=None, graph_state=None):
+                        return {"a": d} if trainable else {}
+                a = ProbeNode(name="a", rate=ra, delay_dist=distrax.Deterministic(0.2 / ra))
+                b = Rcv(name="b", rate=rb, delay_dist=distrax.Deterministic(0.1 / rb))
+                b.connect(a, window=W, delay=cfg["phase_b"], delay_dist=TrainableDist.create(D0, dmin, dmax) if trainable else distrax.Deterministic(d))
+                nodes = {"a": a, "b": b}
+                cg_ = generate_graphs(nodes, cfg["ts_max"] * 2, rng=jax.random.PRNGKey(0))
+                g = Graph(nodes=nodes, supervisor=b, graphs_raw=cg_, progress_bar=False)
+                gs = g.init_record(g.init(jax.random.PRNGKey(1)), inputs=True)
+                gs = g.rollout(gs)
+                st = gs.aux["record"].nodes["b"].steps
+                return np.asarray(st.seq), np.asarray(st.inputs["a"].seq), np.asarray(st.inputs["a"].ts_recv)
+            sq, t_seq, t_recv = build(True)
+            _, s_seq, s_recv = build(False)
+            for k in range(len(sq)):
+                if sq[k] < 0:
+                    continue
+                for j in range(W):
+                    if (s_seq[k, j] < 0) != (t_seq[k, j] < 0) or (s_seq[k, j] >= 0 and (s_seq[k, j] != t_seq[k, j] or abs(s_recv[k, j] - t_recv[k, j]) > 1e-5)):
+                        bad = True
+        return bad
+    except BaseException:  # noqa
+        return None
+
+
 def configs(tier):
     cfgs = []
     Ws = [1, 2] if tier == "quick" else [1, 2, 3]
@@ -325,6 +507,17 @@ def run(rep):
     obs = pmap("props.c10", "worker", cfgs, rep.tier)
     acfg = [dict(min=0.0, max=0.03125), dict(min=0.015625, max=0.0625), dict(min=0.001, max=0.0235)]
     obs += pmap("props.c10", "worker_alpha", acfg, rep.tier)
+    import rex.artificial as art
+    from rex import utils
+    rep.encode(art._generate_graphs, utils.apply_window)
+    ecfg = [dict(W=1, rate_a=20, rate_b=10, min=0.0, max=0.05, created_delay=0.04, ts_max=0.25, phase_b=0.0625)]
+    if rep.tier == "thorough":
+        ecfg += [dict(W=2, rate_a=20, rate_b=10, min=0.0, max=0.05, created_delay=0.02, ts_max=0.25, phase_b=0.0625),
+                 dict(W=1, rate_a=20, rate_b=10, min=0.0125, max=0.0625, created_delay=0.05, ts_max=0.3, phase_b=0.0625)]
+    rep.configs = cfgs + acfg + ecfg
+    obs += pmap("props.c10", "worker_generated_min", ecfg, rep.tier)
+    if rep.tier == "thorough":
+        obs += pmap("props.c10", "worker_end_to_end", [dict(c, ts_max=0.15) for c in ecfg[:1]], rep.tier)
     rep.add_all(obs)
 
 
